@@ -1,4 +1,4 @@
-package main
+package hx
 
 import (
 	"encoding/hex"
@@ -11,7 +11,7 @@ import (
 
 // ---- Coq term printers ----
 
-func coqHx(b []byte) string {
+func Hx(b []byte) string {
 	if len(b) == 0 {
 		return "[]"
 	}
@@ -31,27 +31,27 @@ func coqHx(b []byte) string {
 	return `(hx "` + hex.EncodeToString(b) + `")`
 }
 
-func coqHxS(s string) string { return coqHx([]byte(s)) }
+func HxS(s string) string { return Hx([]byte(s)) }
 
-func coqZ(n int64) string {
+func Z(n int64) string {
 	if n < 0 {
 		return fmt.Sprintf("(%d)", n)
 	}
 	return fmt.Sprintf("%d", n)
 }
 
-func coqBool(b bool) string {
+func Bool(b bool) string {
 	if b {
 		return "true"
 	}
 	return "false"
 }
 
-func coqList(items []string) string {
+func List(items []string) string {
 	return "[" + strings.Join(items, "; ") + "]"
 }
 
-func coqStr(s string) string {
+func Str(s string) string {
 	var b strings.Builder
 	b.WriteByte('"')
 	for i := 0; i < len(s); i++ {
@@ -69,44 +69,44 @@ func coqStr(s string) string {
 	return b.String()
 }
 
-func coqOpt(s string, some bool) string {
+func Opt(s string, some bool) string {
 	if !some {
 		return "None"
 	}
 	return "(Some " + s + ")"
 }
 
-// caseFile assembles a Coq case file: header imports, a list of cases, and the
+// CaseFile assembles a Coq case file: header Imports, a list of Cases, and the
 // evaluation commands whose printed results the glue parses.
-type caseFile struct {
-	imports string
-	typ     string
-	cases   []string
-	tail    string
+type CaseFile struct {
+	Imports string
+	Typ     string
+	Cases   []string
+	Tail    string
 }
 
-func (c *caseFile) render(cases []string) string {
+func (c *CaseFile) Render(Cases []string) string {
 	var b strings.Builder
-	b.WriteString(c.imports)
-	b.WriteString("\nDefinition cases : list " + c.typ + " := [\n")
-	for i, s := range cases {
+	b.WriteString(c.Imports)
+	b.WriteString("\nDefinition cases : list " + c.Typ + " := [\n")
+	for i, s := range Cases {
 		b.WriteString("  ")
 		b.WriteString(strings.ReplaceAll(s, "\n", " "))
-		if i != len(cases)-1 {
+		if i != len(Cases)-1 {
 			b.WriteString(";")
 		}
 		b.WriteString("\n")
 	}
 	b.WriteString("].\n")
-	b.WriteString(c.tail)
+	b.WriteString(c.Tail)
 	return b.String()
 }
 
-func (c *caseFile) String() string { return c.render(c.cases) }
+func (c *CaseFile) String() string { return c.Render(c.Cases) }
 
-// write splits the cases over VERIF_SHARDS files <out minus .v>_<k>.v (one case per line,
+// write splits the Cases over VERIF_SHARDS files <out minus .v>_<k>.v (one case per line,
 // so the glue can map a reported index back to the case text).
-func (c *caseFile) write(out string) error {
+func (c *CaseFile) Write(out string) error {
 	if out == "" {
 		return nil
 	}
@@ -118,17 +118,17 @@ func (c *caseFile) write(out string) error {
 		shards = 1
 	}
 	base := strings.TrimSuffix(out, ".v")
-	per := (len(c.cases) + shards - 1) / shards
+	per := (len(c.Cases) + shards - 1) / shards
 	if per == 0 {
 		per = 1
 	}
 	k := 0
-	for i := 0; i < len(c.cases) || k == 0; i += per {
+	for i := 0; i < len(c.Cases) || k == 0; i += per {
 		j := i + per
-		if j > len(c.cases) {
-			j = len(c.cases)
+		if j > len(c.Cases) {
+			j = len(c.Cases)
 		}
-		if err := os.WriteFile(fmt.Sprintf("%s_%d.v", base, k), []byte(c.render(c.cases[i:j])), 0o644); err != nil {
+		if err := os.WriteFile(fmt.Sprintf("%s_%d.v", base, k), []byte(c.Render(c.Cases[i:j])), 0o644); err != nil {
 			return err
 		}
 		k++
@@ -138,20 +138,20 @@ func (c *caseFile) write(out string) error {
 
 // ---- deterministic generator helpers ----
 
-type gen struct{ r *rand.Rand }
+type Gen struct{ R *rand.Rand }
 
-func newGen(seed int64) *gen { return &gen{rand.New(rand.NewSource(seed))} }
+func NewGen(seed int64) *Gen { return &Gen{rand.New(rand.NewSource(seed))} }
 
-func (g *gen) intn(n int) int { return g.r.Intn(n) }
-func (g *gen) chance(p float64) bool { return g.r.Float64() < p }
-func (g *gen) pick(xs []string) string { return xs[g.r.Intn(len(xs))] }
-func (g *gen) bytes(n int) []byte {
+func (g *Gen) Intn(n int) int { return g.R.Intn(n) }
+func (g *Gen) Chance(p float64) bool { return g.R.Float64() < p }
+func (g *Gen) Pick(xs []string) string { return xs[g.R.Intn(len(xs))] }
+func (g *Gen) Bytes(n int) []byte {
 	b := make([]byte, n)
-	g.r.Read(b)
+	g.R.Read(b)
 	return b
 }
 
-func sortedKeys(m map[string]string) []string {
+func SortedKeys(m map[string]string) []string {
 	ks := make([]string, 0, len(m))
 	for k := range m {
 		ks = append(ks, k)
@@ -160,4 +160,4 @@ func sortedKeys(m map[string]string) []string {
 	return ks
 }
 
-func countBy(m map[string]int, k string) { m[k]++ }
+func CountBy(m map[string]int, k string) { m[k]++ }
